@@ -1,6 +1,7 @@
 import Nri.Model.LibMem
 import Nri.Proofs.LibMem
 import Nri.Proofs.LibMemInv
+import Nri.Proofs.LibMemCommit
 import Nri.Gen.LibmemFacts
 /-!
 C06 — memory allocator operations are transactional; stale offers are rejected.
@@ -241,6 +242,30 @@ theorem every_operation_keeps_wf (s : St) (hw : WF s) :
   intro r
   obtain ⟨h1, _, h3⟩ := getOffer_pure s hw r
   exact ⟨h3, by rw [h1]; exact hw.ids⟩
+
+/-! ### committing a fresh offer = allocating directly -/
+
+/-- **Commit of a fresh offer gives the same zone and the same updates as `Allocate`.** In every
+well-formed state whose requests are all placed (the history invariant of `Props/C07`), for every
+request: if `GetOffer r` succeeds, committing the offer right away returns exactly the result -
+zone and update map - that `Allocate r` returns in that state.  (Proof: the offer carries the
+journal's update map of the same internal `allocate`; that map is exact, `Proofs/LibMemUpd`.)
+Equality of the resulting request lists is checked by the twin run, not proved. -/
+theorem commit_fresh_eq_allocate (s : St) (hw : WF s) (hp : Placed s) (r : Req) (o : Offer)
+    (h : (s.GetOffer r).2 = .ok o) :
+    ((s.GetOffer r).1.Commit o).2 = (s.Allocate r).2 :=
+  commit_fresh_result_eq_allocate s hw hp r o h
+
+-- non-vacuity: an offer that displaces another request, committed, reports what Allocate reports
+example :
+    let s0 : St := ((({ nodes := [{ id := 0, typ := 0, cap := 100, normal := true, dist := [10, 21] },
+                                  { id := 1, typ := 0, cap := 100, normal := true, dist := [21, 10] }] } : St).Allocate
+      { id := "b", size := 70, aff := 1, types := 0, strict := false, prio := 1024, created := 1 }).1)
+    let r : Req := { id := "g", size := 60, aff := 1, types := 0, strict := false, prio := 16384, created := 2 }
+    (match (s0.GetOffer r).2 with
+     | .ok o => (((s0.GetOffer r).1.Commit o).2, (s0.Allocate r).2)
+     | .error _ => (.error .other, .error .internal))
+      = (.ok ⟨1, [("b", 3)]⟩, .ok ⟨1, [("b", 3)]⟩) := by rfl
 
 -- non-vacuity: a concrete 2-node allocator is well-formed and the theorems' hypotheses are met
 def exampleSt : St :=
